@@ -324,6 +324,13 @@ def _one(rep, case, mix, model, T, x, zero, gam, Composition, CompositionType, g
     # basis independence: the equivalent mass fraction as input
     w = gen.to_weight_exact(xm, mix)
     if 0 < w.p < 1:
+        from pyvaporation.mixtures.mixture import calculate_activity_coefficients
+
+        gw = calculate_activity_coefficients(T, mix, w, model)
+        amp_g = 1 + x / x2 + w.p / (1 - w.p)
+        for i in (0, 1):
+            rep.check("activity coefficients from the equivalent mass fraction are the same", abs(float(gw[i]) - g0[i]),
+                      (64 * EPS * amp_g * (1 + abs(d[i]) * x) + 4 * noise[i]) * abs(g0[i]), dict(case, i=i), {"from_mass": float(gw[i]), "from_mole": g0[i], "w": w.p})
         pw = get_partial_pressures(T, mix, w, model)
         # evaluation noise of the library at this point: same call with x1 moved by a few ulp
         lnoise = noise
